@@ -356,8 +356,8 @@ func checkRunWiring(c *Check) {
 func init() {
 	sharedRules = append(sharedRules,
 		sharedRule{Suffix: "WIRING", Props: []string{"C02", "C05", "C11", "C15", "C20"}, Body: checkRunWiring, Doc: "(WIRING) Run starts the health, recovery, lag and state-file loops unconditionally and the CA-file and repl_mon loops under their own configuration switch, all after the cluster handle exists"},
-		sharedRule{Suffix: "ROWSERR", Props: []string{"C01", "C13", "C20"}, Body: checkRowsErr, Doc: "(ROWSERR) a single-row reader answers 'no row' only after rows.Err() returned nil"},
-		sharedRule{Suffix: "PARALLEL", Props: []string{"C01", "C08"}, Body: checkRunParallel, Doc: "(PARALLEL) the fan-out helper records an entry for every input, nil results included"},
+		sharedRule{Suffix: "ROWSERR", Props: []string{"C01", "C04", "C09", "C11", "C13", "C20"}, Body: checkRowsErr, Doc: "(ROWSERR) a single-row reader answers 'no row' only after rows.Err() returned nil"},
+		sharedRule{Suffix: "PARALLEL", Props: []string{"C01", "C03", "C08"}, Body: checkRunParallel, Doc: "(PARALLEL) the fan-out helper records an entry for every input, nil results included"},
 		sharedRule{Suffix: "LOOPALL", Props: []string{"C04"}, Body: func(c *Check) {
 			checkLoopAll(c, "(*app.App).disableSemiSyncOnSlaves", 2, "acknowledgement is switched off on EVERY host that leaves the list: a failure on one host does not end the loop (the others would stay ackers outside the published list)")
 		}, Doc: "(LOOPALL) the loops that switch acknowledgement off have no exit other than exhaustion"},
